@@ -62,7 +62,7 @@ def generate(family, rng, tier):
         sched, desc = cdc.gen_schedule(rng, n_ticks, 2)
         scn.update(params={"family": "axil_cdc"}, max_out=rng.choice([1, 2, 4]),
                    bready=prng.pattern(rng, 300, rng.choice([1.0, 0.6, 0.3])), rready=prng.pattern(rng, 300, rng.choice([1.0, 0.6, 0.3])),
-                   ops=c09.gen_axil_ops(rng, n, 4, lambda r: 0x40 + r.randrange(8)), slave=c09.slave_cfg(rng),
+                   ops=[dict(o, prot=rng.getrandbits(3)) for o in c09.gen_axil_ops(rng, n, 4, lambda r: 0x40 + r.randrange(8))], slave=c09.slave_cfg(rng),
                    schedule=sched, sched_desc=desc, meta=[rng.getrandbits(16) for _ in range(64)] if rng.random() < 0.8 else [0])
         return scn
     if family == "BusSync":
